@@ -117,6 +117,9 @@ def _run(case: dict, gaps, sim) -> CaseResult:
     starts = [0] + ends[:-1]
     for i, chunk in enumerate(wire.iter_cut(stream, cuts)):
         before = fed
+        for act in (case.get("flow") or {}).get(str(i), []):
+            classes.add("flow_control")  # write-side flow control callbacks: reading goes on as before
+            (h.pause_writing if act == "pause" else h.resume_writing)()
         try:
             obj_, recycle_ = fstub.as_kind_recycled(chunk, kinds[i % len(kinds)])
             h.data_received(obj_)
@@ -346,6 +349,7 @@ def _case(draw, tier):
         "hs_payload": hsp,
         "key_fmt": draw(st.sampled_from([0, 0, 0, 0, 1, 2, 3, 4, 5])),
         **({"gaps": draw(st.lists(st.sampled_from([0, 0.01, 1, 9.5, 29, 31, 100]), min_size=1, max_size=3))} if draw(st.integers(0, 9)) == 6 else {}),
+        **({"flow": {str(i): draw(st.lists(st.sampled_from(["pause", "resume"]), min_size=1, max_size=2)) for i in range(len(cuts) + 1) if draw(st.integers(0, 2)) == 0}} if draw(st.integers(0, 9)) == 3 else {}),
     }
 
 
